@@ -40,6 +40,8 @@ def run_impl(c):
         for name in ("start_sample", "expected_start_sample", "sample_count"):
             if name in c:
                 kw[name] = c[name]
+            elif name in c.get("xnone", ()):
+                kw[name] = None  # None passed explicitly means the same as the argument left out
 
         def f():
             res = a.test(e, **kw)
@@ -163,6 +165,8 @@ def gen_cases(rng, tier):
                 c[name] = c["start_sample"]
                 continue
             if m < 0.35:
+                if rng.random() < 0.5:
+                    c.setdefault("xnone", []).append(name)
                 continue
             elif m < 0.85:
                 c[name] = rng.randrange(0, lim + 1)
